@@ -120,14 +120,20 @@ def sec_add(ck, C, validate, stateful=True):
 
     # ---------- inductive step from an arbitrary state satisfying Inv(p, buf)
     it = Interp()
-    p = z3.Int("p")
+    n = z3.Int("n")           # ghost: the true number of insertions so far (unbounded)
+    p = z3.Int("p")           # the buffer's own counter; only what add() and sample() read off it is assumed (link)
     given = {"buf_position": p}
     for L in leaves:
         av = shapes[L]
         row = np.empty(av.shape[1:], dtype=object)
         for k in np.ndindex(*row.shape):
-            row[k] = p if L == TAG else H(it, L, k, av.dtype)(p)        # the new row is insertion number p
+            row[k] = n if L == TAG else H(it, L, k, av.dtype)(n)        # the new row is insertion number n
         given[row_name(L)] = row
+
+    def link(n_, p_):
+        """the counter represents n insertions: same ring slot, same number of stored transitions (how the counter does that -- exact count, folded
+        count -- is the implementation's choice; the int32 side is the `machine` section)"""
+        return z3.And(p_ >= 0, p_ % C == n_ % C, zmin(p_, C) == zmin(n_, C))
     S = tr.symbols(it, given=given)
     out = tr.run(it, S)
 
@@ -148,19 +154,21 @@ def sec_add(ck, C, validate, stateful=True):
         return cs
 
     buf_in = {L: S["buf_" + L] for L in leaves}
-    T0 = tags_of(p, buf_in[TAG])
-    A = [p >= 0] + inv(p, buf_in, T0)
-    T1 = tags_of(p + 1, out[TAG])
-    goal = conj([eq_elem(out["position"][()], p + 1)] + inv(p + 1, out, T1))
+    T0 = tags_of(n, buf_in[TAG])
+    A = [n >= 0, link(n, p)] + inv(n, buf_in, T0)
+    T1 = tags_of(n + 1, out[TAG])
+    goal = conj([link(n + 1, out["position"][()])] + inv(n + 1, out, T1))
 
     def rp_add(res, tr=tr, S=S, it=it):
         keys = concrete.KeyBinding(res)
         vals = [concrete.model_leaf(res, S[n], av, keys) for n, av in zip(tr.in_names, tr.in_avals)]
         m = dict(zip(tr.out_names, concrete.run_real(tr, vals)))
-        pv = int(solve.num(res.value(p)))
+        pv = int(solve.num(res.value(n)))          # insertions so far
+        cv = int(solve.num(res.value(p)))          # the counter before
         bad = []
-        if int(m["position"]) != pv + 1:
-            bad.append({"position_after": int(m["position"]), "expected": pv + 1})
+        pa = int(m["position"])
+        if not (pa >= 0 and pa % C == (pv + 1) % C and min(pa, C) == min(pv + 1, C)):
+            bad.append({"position_after": pa, "insertions_after": pv + 1, "required": "position mod C = insertions mod C and min(position, C) = min(insertions, C)"})
         for j in range(C):
             tj = int(np.asarray(m[TAG])[j]) if j < min(pv + 1, C) else -1
             want = -1 if pv + 1 <= j else pv - ((pv - j) % C)        # most recent insertion n <= pv with n mod C == j
@@ -178,20 +186,20 @@ def sec_add(ck, C, validate, stateful=True):
                     got = np.asarray(m[L])[(j,) + k]
                     if not same_value(got, exp):
                         bad.append({"slot": j, "leaf": L, "elem": list(k), "real_code": float(got), "content_of_insertion": tj, "expected": exp})
-        info = {"function": tr.label, "capacity": C, "position_before": pv,
+        info = {"function": tr.label, "capacity": C, "insertions_before": pv, "counter_before": cv,
                 "inputs": {n: np.asarray(concrete.real_to_float(v)).reshape(-1)[:12].tolist() for n, v in zip(tr.in_names, vals)},
                 "after_add": {n: np.asarray(concrete.real_to_float(v)).reshape(-1)[:12].tolist() for n, v in m.items()},
                 "invariant_failures": bad[:8]}
         return bool(bad), info
-    small = [p <= P_REPLAY_MAX] + bounded_inputs(S, tr, ilim=P_REPLAY_MAX + 10)
+    small = [n <= P_REPLAY_MAX, p <= P_REPLAY_MAX] + bounded_inputs(S, tr, ilim=P_REPLAY_MAX + 10)
     ck.prove(f"add.inductive@C={C}{sfx}", A, goal, replay=rp_add, margin_goal=implies(conj(small), goal))
-    ck.witness(f"witness.inv_after_wraparound@C={C}{sfx}", A + [p > C])
-    ck.witness(f"witness.inv_partially_filled@C={C}{sfx}", A + [p > 0, p < C] if C > 1 else A + [p == 0])
+    ck.witness(f"witness.inv_after_wraparound@C={C}{sfx}", A + [n > C])
+    ck.witness(f"witness.inv_partially_filled@C={C}{sfx}", A + [n > 0, n < C] if C > 1 else A + [n == 0])
     if C > 1:
         # wrong references: the ring index computed as (p+1) mod C / the position not advanced
-        wrong = [z3.If(j < zmin(p + 1, C), z3.If(j == (p + 1) % C, p, buf_in[TAG][j]), -1) for j in range(C)]
+        wrong = [z3.If(j < zmin(n + 1, C), z3.If(j == (n + 1) % C, n, buf_in[TAG][j]), -1) for j in range(C)]
         ck.control(f"control.add_row_lands_at_next_slot@C={C}{sfx}", A, conj([eq_elem(T1[j], wrong[j]) for j in range(C)]))
-    ck.control(f"control.add_position_unchanged@C={C}{sfx}", A, eq_elem(out["position"][()], p))
+    ck.control(f"control.add_position_unchanged@C={C}{sfx}", A, link(n + 1, p))
 
     # ---------- all fields of the new row are written at one common slot and nothing else changes (arbitrary state, no invariant needed)
     it2 = Interp()
@@ -232,6 +240,63 @@ def sec_add(ck, C, validate, stateful=True):
     ck.prove(f"add.fields_same_slot@C={C}{sfx}", [p2 >= 0], g2, replay=rp_slot, margin_goal=implies(conj(small2), g2))
     if C > 1:
         ck.control(f"control.add_always_slot0@C={C}{sfx}", [p2 >= 0], same_slot(0))
+
+
+def sec_machine_counter(ck, C):
+    """int32 semantics of the insertion counter.  The inductive step above treats `position` as a mathematical integer; the array is int32 and XLA
+    addition wraps.  What add() and sample() read off the counter p after n insertions (n unbounded) is
+        Obs(n, p) :=  p mod C = n mod C  and  current_size(p) = min(n, C).
+    The check looks for an inductive invariant Inv(n, p) of the MACHINE counter (holds for n = p = 0, preserved by add with wrapping arithmetic, implies Obs)
+    among two candidates: the bounded counter  Inv_B := 0 <= p < 2C, p = n mod C (mod C), (n < C => p = n), (n >= C => p >= C)  and the exact counter
+    Inv_A := p = n.  Every pre-state of Inv_A is reached by n insertions from the empty buffer, so a counterexample to its preservation is a real history."""
+    from jaxsmt.machineint import in_range, wrap_ops
+    tr = trace_add(C)
+    it = Interp()
+    p = z3.Int("p_machine")
+    S = tr.symbols(it, given={"buf_position": p})
+    out = tr.run(it, S)
+    pav = tr.out_avals[tr.out_names.index("position")]
+    ck.fact(f"machine.position_is_int32@C={C}", str(pav.dtype) == "int32" and tuple(pav.shape) == (), f"position aval {pav}")
+    nxt = wrap_ops(out["position"][()])
+    trc = trace(lambda rb: rb.current_size, mkbuf(C), argnames=["buf"], label="ReplayBuffer.current_size")
+    ck.encoded(trc)
+
+    def cur(pos):
+        itc = Interp()
+        return wrap_ops(trc.run(itc, trc.symbols(itc, given={"buf_position": pos}))[trc.out_names[0]][()])
+    n = z3.Int("n_insertions")
+
+    def obs(n_, p_):
+        return z3.And(p_ % C == n_ % C, cur(p_) == zmin(n_, C))
+
+    def inv_b(n_, p_):
+        return z3.And(p_ >= 0, p_ < 2 * C, p_ % C == n_ % C, z3.Implies(n_ < C, p_ == n_), z3.Implies(n_ >= C, p_ >= C))
+
+    def inv_a(n_, p_):
+        return p_ == n_
+    base = [n >= 0, in_range(p)]
+
+    def inductive(inv):
+        return [z3.Implies(z3.And(n == 0, p == 0), inv(n, p)), z3.Implies(inv(n, p), z3.And(in_range(nxt), inv(n + 1, nxt), obs(n, p)))]
+    rb_ = solve.decide(base + [z3.Not(z3.And(inductive(inv_b)))], timeout_s=30)
+    which = ("bounded", inv_b) if rb_.status == "unsat" else ("exact", inv_a)
+
+    def rp(res):
+        import equinox as eqx
+        pv = int(solve.num(res.value(p)))
+        nv = int(solve.num(res.value(n)))
+        rb = eqx.tree_at(lambda b: b.position, mkbuf(C), jnp.asarray(pv, jnp.int32))
+        osp, asp, st = spaces(True)
+        o, a = osp.canonical(), asp.canonical()
+        rb2 = rb.add(o, o, a, jnp.array(0.0), jnp.array(False), jnp.array(False), st, st)
+        p2, cs2 = int(rb2.position), int(rb2.current_size)
+        ok = p2 % C == (nv + 1) % C and cs2 == min(nv + 1, C)
+        return (not ok), {"function": f"ReplayBuffer.add on a buffer whose int32 counter is {pv}, the state after {nv} insertions", "capacity": C, "insertions_before": nv,
+                          "position_after_real_add": p2, "current_size_after_real_add": cs2, "required": {"position mod C": (nv + 1) % C, "current_size": min(nv + 1, C)},
+                          "consequence": "sample() builds its validity mask from current_size: a negative value marks every slot invalid (probabilities 0/0)"}
+    ck.notes.append(f"machine counter, C={C}: inductive invariant tried first: bounded counter ({rb_.status}); obligation stated with the {which[0]} counter invariant")
+    ck.prove(f"machine.counter_simulates_insertion_count@C={C}", base, z3.And(inductive(which[1])), replay=rp)
+    ck.witness(f"witness.machine.counter_invariant_satisfiable@C={C}", base + [which[1](n, p), n > 2 * C + 5])
 
 
 def sec_base(ck):
@@ -394,6 +459,9 @@ def main():
             sec_add(ck, C, validate=(C in (1, 3)))
         with ck.section(f"ring@C={C}"):
             sec_ring(ck, C)
+    for C in ([1, 3, 4] if not ck.thorough else Cs):
+        with ck.section(f"machine@C={C}"):
+            sec_machine_counter(ck, C)
     with ck.section("add@C=3,stateless"):
         sec_add(ck, 3, validate=False, stateful=False)        # policies without a state: the states / next_states fields are absent
     for i, (C, B) in enumerate(scal):
